@@ -292,16 +292,24 @@ def write_evidence(ctx, mod, nviol, known_seen):
 
 
 def setup():
-    """MANIFEST.setup_cmd: build implementation copy + whole Coq project."""
+    """MANIFEST.setup_cmd: build the implementation copy and the Coq files of
+    every registered check (files of properties still under construction are
+    not part of the claim and are not built here)."""
     t0 = time.time()
     impl.build()
 
     class _C:
         pass
     regenerate(_C())
-    ok, log = coqtools.make([], timeout=3000)
+    man = json.load(open(os.path.join(VERIF, "MANIFEST.json")))
+    targets = ["Model/CaseUtil.vo"]
+    for c in man["checks"]:
+        mod = importlib.import_module("harness.props." + c["property_id"].lower())
+        targets.append(mod.PROPS_FILE + "o")
+        targets += [m + "o" for m in getattr(mod, "MODEL_FILES", [])]
+    ok, log = coqtools.make(sorted(set(targets)), timeout=3000)
     print(log[-3000:])
-    print("setup: coq build ok=%s in %.0fs" % (ok, time.time() - t0))
+    print("setup: coq build ok=%s in %.0fs (%d targets)" % (ok, time.time() - t0, len(set(targets))))
     return 0 if ok else 1
 
 
